@@ -40,10 +40,10 @@ class CacheFacts:
         if not self.dict_field or not self.list_field:
             raise AnalysisError(f"{name}: dict/list fields not discoverable from __init__")
         # capacity field: the attribute compared with len(dict) in __setitem__
-        self.setitem = prog.method(self.cls, "__setitem__")
-        self.getitem = prog.method(self.cls, "__getitem__")
-        self.delitem = prog.method(self.cls, "__delitem__")
-        self.iter = prog.method(self.cls, "__iter__")
+        self.setitem = prog.method_raw(self.cls, "__setitem__")
+        self.getitem = prog.method_raw(self.cls, "__getitem__")
+        self.delitem = prog.method_raw(self.cls, "__delitem__")
+        self.iter = prog.method_raw(self.cls, "__iter__")
         # the same methods with the cache's private helpers inlined: for the rules that read statements (sa/inline.py)
         self.setitem_v = prog.method_view(self.cls, "__setitem__")
         self.getitem_v = prog.method_view(self.cls, "__getitem__")
